@@ -452,6 +452,8 @@ def dispatch_ast(d):
     prev = 'e'
     for i, defs in enumerate(chain, start=1):
         ms = [Let('tag', I(i))]
+        if 'F' in defs:
+            ms.append(Let('m', I(70 + i)))
         if 'M' in defs:
             ms.append(Fun('m', ['a', 'b'], Blk([Pr('M%d;' % i), Op('+', Op('+', V('a'), V('b')), GF(V('this'), 'tag'))])))
         if '>' in defs:
@@ -475,7 +477,7 @@ def dispatch_ast(d):
     t = V('t')
     c = {'m1': MC(t, 'm', [I(10)]), 'm0': MC(t, 'm', []), 'm2': MC(t, 'm', [I(1), I(2)]), 'plus': Op('+', t, I(1)), 'and': Op('&', t, B(True)),
          'index': Ix(t, I(0)), 'setindex': SIx(t, I(1), I(9)), 'get': MC(t, 'get', [I(1)]), 'set': MC(t, 'set', [I(0), I(4)]),
-         'zz': MC(t, 'zz', [I(1)]), 'field': GF(t, 'tag'),
+         'zz': MC(t, 'zz', [I(1)]), 'field': GF(t, 'tag'), 'fieldm': GF(t, 'm'),
          'eqnull': Op('==', t, N()), 'ne5': Op('!=', t, I(5)), 'feq': MC(t, 'eq', [N()]), 'fneq': MC(t, 'neq', [I(5)]), 'add1': MC(t, 'add', [I(1)]),
          'plus0': MC(t, '+', []), 'plus2': MC(t, '+', [I(1), I(2)]), 'lt3': MC(t, '<', [I(1), I(2), I(100)]),
          'gt1': Op('>', t, I(1)), 'ge1': Op('>=', t, I(1))}[call]
